@@ -16,5 +16,7 @@ func TestVerif(t *testing.T) {
 		"C02": scenC02,
 		"C04": scenC04,
 		"C07": scenC07,
+		"C06K": scenC06K,
+		"C19K": scenC19K,
 	})
 }
